@@ -167,8 +167,9 @@ def check(program: Program, run: Run) -> None:
     # writes the child's own qualifiers (Schema -> parent schemas, Table -> schema).  Reading `self.<child>.<name>` directly
     # bypasses them.  The two reviewed exceptions are column qualifiers, which by design refer to the row source by its
     # alias or bare name.
-    QUALIFIER_READS = {("Field.get_sql", "table"): "column qualifier: refers to the row source by alias or bare table name",
-                       ("Star.get_sql", "table"): "star qualifier: same"}
+    # keyed by class, not by function: the read may live in get_sql or in a helper / hook of the same class
+    QUALIFIER_READS = {("Field", "table"): "column qualifier: refers to the row source by alias or bare table name",
+                       ("Star", "table"): "star qualifier: same"}
 
     def foreign_child(v):
         """`self.<child>.<name attr>` (also through get_table_name(self.<child>) / `a or b`): the child path, else None"""
@@ -201,16 +202,15 @@ def check(program: Program, run: Run) -> None:
                     continue
                 seen7.add((fn, child))
                 n7 += 1
-                ok = (fn, child) in QUALIFIER_READS
+                owner_cls = fn.rsplit(".", 1)[0] if "." in fn else fn
+                ok = (owner_cls, child) in QUALIFIER_READS or (f.cls is not None and any((k.qualname, child) in QUALIFIER_READS for k in f.cls.mro))
                 run.ob("C07/R7 a child's name is written by rendering the child", f"{fn}:{child}", ok, detail=s_[:80],
                        where=f"{p_.src[2]}:{p_.src[1]}" if p_.src else "")
                 if not ok:
                     run.finding(f"C07/child-name-read-directly:{fn}:{child}",
                                 f"{fn} prints `{s_[:60]}`, a name attribute of its child `{child}`, instead of rendering the child: whatever the child's own renderer "
                                 f"writes besides that name (parent schemas, the schema of a table) is silently dropped", where=f"{p_.src[2]}:{p_.src[1]}" if p_.src else "", rule="R7")
-    run.analysed["foreign_name_reads"] = n7
-    if n7 < 2:
-        raise AnalysisError(f"anchor vanished: reviewed qualifier reads (Field/Star -> table) found {n7}")
+    run.analysed["foreign_name_reads"] = n7     # (no floor: the rule is not vacuous when the two reviewed reads disappear; the name-hole floor above applies)
 
     # ---- R4: Field/Star qualify by `table.alias` whenever the table has one (C11/R2), whatever the context; the
     # alias therefore has to be *defined* at the slot that introduces the table as a row source.
